@@ -1023,7 +1023,28 @@ class Ops:
             return None
         if isinstance(obj, ListV):
             self.ev("list_item_store", st)
-            return obj
+            if idx[0] != "index":
+                return Unk("slice assignment on a list")
+            i = self.const_int(idx[1])
+            if obj.items is not None and i is not None and -len(obj.items) <= i < len(obj.items) and self.interp.join_depth == 0:
+                items = list(obj.items)
+                items[i] = v
+                return replace(obj, items=tuple(items))
+            old = obj.elem if obj.items is None else join_all(obj.items)
+            if isinstance(old, Const) and old.v is None and isinstance(v, TV) and hasattr(self, "optional"):
+                new_elem = self.optional(v, old)  # a list of None being filled: every entry is a value or still None
+            elif isinstance(v, Const) and v.v is None and isinstance(old, TV) and hasattr(self, "optional"):
+                new_elem = self.optional(old, v)
+            else:
+                new_elem = v if old is None else join(old, v)
+            order = obj.order
+            it = tv_of(idx[1])
+            scatter = next((l[1] for l in (it.layout if isinstance(it, TV) else ()) if l[0] == "enum"), None)
+            if scatter is not None and (order is None or order[1] == "const" or order == scatter):
+                order = scatter  # xs[i] = f(ys[i]) for i, y in enumerate(ys): xs is laid out like ys
+            elif order is not None and order[1] != "const":
+                order = (order[0], "mixed") if scatter is None and i is None else order
+            return ListV(items=None, elem=new_elem, kind=obj.kind, order=order, length=obj.length if obj.items is None else None, over=obj.over)
         if isinstance(obj, ObjV):
             r = obj.cls.lookup("__setitem__")
             if r is not None:
